@@ -2,6 +2,7 @@
 package ev
 
 import (
+	"runtime/pprof"
 	"crypto/sha256"
 	"encoding/hex"
 	"encoding/json"
@@ -163,6 +164,12 @@ func HarnessError(format string, a ...interface{}) {
 
 // Finish writes the evidence file, prints verdict lines and exits.
 func (r *Run) Finish(coverage map[string]interface{}, assumptions []string) {
+	if pf := os.Getenv("VERIF_HEAPPROF"); pf != "" {
+		if f, err := os.Create(pf); err == nil {
+			pprof.Lookup("heap").WriteTo(f, 0)
+			f.Close()
+		}
+	}
 	r.mu.Lock()
 	defer r.mu.Unlock()
 	if _, ok := coverage["exhaustive"]; !ok {
